@@ -3,7 +3,7 @@
    memory_pool_collection; implementation logs (results, ranges handed to the lists via the guarded insert
    hook, upstream calls, capacity figures after every operation) are replayed against acc_op. *)
 From Coq Require Import ZArith List Bool.
-From FM Require Import FixedStack SmallCarve PoolSpec SlotProofs ListLib PoolSpecProofs OrderedList OrderedListProofs UnorderedList UnorderedListProofs InvalidRelease SmallList SmallListProofs SmallRefine UnorderedRefine.
+From FM Require Import FixedStack SmallCarve PoolSpec SlotProofs ListLib PoolSpecProofs OrderedList OrderedListProofs UnorderedList UnorderedListProofs InvalidRelease SmallList SmallListProofs SmallRefine UnorderedRefine OrderedRefine.
 Import ListNotations.
 Local Open Scope Z_scope.
 
@@ -146,6 +146,14 @@ Theorem C04_unordered_list_refines_spec : forall ns os g, 0 < ns -> ugrun {| ug_
             l_nfree (us_l s) = u_capacity (ug_l g) /\ l_allocs (us_l s) = ug_live g.
 Proof. exact unordered_list_refines_spec. Qed.
 Print Assumptions C04_unordered_list_refines_spec.
+
+(* ... and so does the address-ordered list (OrderedList.v), in every debug configuration and with its sentinels anywhere *)
+Theorem C04_ordered_list_refines_spec : forall asserts dbl pb0 pe0 ns os g, pb0 < pe0 -> 0 < ns ->
+  ogrun asserts dbl {| og_l := o_empty pb0 pe0 ns; og_live := [] |} os = Some g ->
+  exists s, ocorun asserts dbl {| og_l := o_empty pb0 pe0 ns; og_live := [] |} {| us_rs := []; us_l := ul ns [] 0 |} os = Some (g, s) /\
+            l_nfree (us_l s) = o_capacity (og_l g) /\ l_allocs (us_l s) = og_live g.
+Proof. exact ordered_list_refines_spec. Qed.
+Print Assumptions C04_ordered_list_refines_spec.
 
 (* non-vacuity: an accepted history on a 16-byte list: insert 10 nodes, take a 3x8-byte array (2 nodes) and a node, give both back *)
 Example C04_nonvacuous :
